@@ -266,6 +266,39 @@ Definition loop_ok (l : loop) : bool :=
 Definition write_atoms_by (l : loop) (tpl : list item) (atoms : list atom) : option (list str) :=
   if loop_ok l then Some (write_atoms tpl atoms) else None.
 
+(* ------------------------------------------------------------------ NWChem: WHETHER a multiplicity line is written
+   NWChem.get_keywords (NWChem.py:56-127).  A translated keyword is abstracted to four facts about its text:
+   starts with "dft" / starts with "scf" / contains "nopen" / (contains "opt" while the molecule is a single atom).
+   Loop over the keywords (branch order checked by the translator):
+     opt1            -> every word containing "opt" is replaced by "energy", the keyword is appended, NOTHING inserted
+     starts "dft"    -> `mult m` inserted (LMult), appended
+     starts "scf"    -> if no keyword appended so far contains "nopen": `nopen m-1` inserted (LNopen), appended;
+                        otherwise the keyword is dropped
+     otherwise       -> appended unchanged
+   then the trailing guard (GENERATED: nwchem_tail_guard) decides whether an `scf / nopen m-1` block is added. *)
+Record nwkw := mkNw { k_dft : bool; k_scf : bool; k_nopen : bool; k_opt1 : bool }.
+(* state: (multiplicity lines written so far, some appended keyword starts with dft, some contains nopen, contains "task scf") *)
+Fixpoint nw_loop (ks : list nwkw) (acc : list lkind) (dft nopen : bool) : list lkind * bool * bool :=
+  match ks with
+  | [] => (acc, dft, nopen)
+  | k :: r =>
+    if k_opt1 k then nw_loop r acc (dft || k_dft k) (nopen || k_nopen k)
+    else if k_dft k then nw_loop r (acc ++ [LMult]) true (nopen || k_nopen k)
+    else if k_scf k then (if nopen then nw_loop r acc dft nopen else nw_loop r (acc ++ [LNopen]) dft true)
+    else nw_loop r acc dft (nopen || k_nopen k)
+  end.
+Definition nw_spin_lines (g : nw_guard) (task_scf : bool) (ks : list nwkw) : list lkind :=
+  let '(acc, dft, nopen) := nw_loop ks [] false false in
+  match g with
+  | GuardNoDftNoNopen => if negb dft && negb nopen then acc ++ [LNopen] else acc
+  | GuardTaskScfNoNopen => if task_scf && negb nopen then acc ++ [LNopen] else acc
+  | GuardOther _ => acc
+  end.
+(* the user's own keywords already carry a nopen line *)
+Definition user_nopen (ks : list nwkw) : bool := existsb k_nopen ks.
+(* a dft block caught by the single-atom `opt` rewrite (a functional whose NWChem name contains "opt", e.g. optx) *)
+Definition dft_hit_by_opt1 (ks : list nwkw) : bool := existsb (fun k => k_opt1 k && k_dft k) ks.
+
 (* first spec of field f in a template / token layout *)
 Fixpoint spec_of_field (f : field) (tpl : list item) : option spec :=
   match tpl with
